@@ -36,12 +36,13 @@ var opType = map[string]pb.ControlEnvironmentRequest_Optype{"CONFIGURE": pb.Cont
 	"STOP_ACTIVITY": pb.ControlEnvironmentRequest_STOP_ACTIVITY, "RESET": pb.ControlEnvironmentRequest_RESET, "GO_ERROR": pb.ControlEnvironmentRequest_GO_ERROR, "NOOP": pb.ControlEnvironmentRequest_NOOP}
 
 type sys struct {
-	w    *coresim.World
-	id   string
-	viol []vrt.Violation
-	failNext bool // the next transition command is answered with an error by the task
-	seenEv int
+	w         *coresim.World
+	id        string
+	viol      []vrt.Violation
+	failNext  bool // the next transition command is answered with an error by the task
+	seenEv    int
 	lastState string
+	hookFails string // tag of the critical call made to fail during the current request
 }
 
 func (s *sys) fail(clause, f string, a ...any) {
@@ -140,12 +141,17 @@ func (s *sys) control(ev string, taskFails bool) {
 		if now, _ := s.w.EnvState(s.id); now != "ERROR" {
 			s.fail("illegal-request-left-state:"+now+":"+ev+":from="+before, "%s", ctx)
 		}
-	case taskFails:
+	case taskFails || s.hookFails != "":
+		what := ev
+		if s.hookFails != "" {
+			what = ev + ":critical-hook-failed-at-" + strings.TrimPrefix(s.hookFails, "k-")
+			ctx += " failing critical hook: " + s.hookFails
+		}
 		if err == nil {
-			s.fail("failed-transition-reported-as-success:"+ev, "%s", ctx)
+			s.fail("failed-transition-reported-as-success:"+what, "%s", ctx)
 		}
 		if now, _ := s.w.EnvState(s.id); now != "ERROR" {
-			s.fail("failed-transition-left-state:"+now+":"+ev, "%s", ctx)
+			s.fail("failed-transition-left-state:"+now+":"+what, "%s", ctx)
 		}
 	default:
 		if err != nil {
@@ -201,10 +207,43 @@ func (s *sys) key() string {
 
 var ops = []string{"CONFIGURE", "CONFIGURE!", "START_ACTIVITY", "START_ACTIVITY!", "STOP_ACTIVITY", "STOP_ACTIVITY!", "RESET", "RESET!", "GO_ERROR", "NOOP", "destroy", "destroyForce", "destroyAllowRunning", "destroyKeep"}
 
+// hook sites at which a critical call can be made to fail: "<EV>?<site>" requests EV with that hook failing
+var hookSites = []string{"before-5", "leave+5", "enter-5", "enter+5", "after-5"}
+
+func init() {
+	for _, ev := range []string{"CONFIGURE", "START_ACTIVITY", "STOP_ACTIVITY", "RESET"} {
+		for _, site := range hookSites {
+			ops = append(ops, ev+"?"+site)
+		}
+	}
+}
+
+// hookTrigger: the trigger expression of a hook site of transition ev
+func hookTrigger(ev, site string) string {
+	m, w := site[:len(site)-2], site[len(site)-2:]
+	switch m {
+	case "before":
+		return "before_" + ev + w
+	case "after":
+		return "after_" + ev + w
+	case "leave":
+		return "leave_" + legalFrom[ev] + w
+	}
+	return "enter_" + destOf[ev] + w
+}
+
 func (s *sys) apply(op string) {
 	switch {
 	case strings.HasPrefix(op, "destroy"):
 		s.destroy(op == "destroyForce", op == "destroyAllowRunning", op == "destroyKeep")
+	case strings.Contains(op, "?"):
+		i := strings.Index(op, "?")
+		tag := "k-" + hookTrigger(op[:i], op[i+1:])
+		coresim.CallFail[tag] = true
+		s.hookFails = tag
+		s.control(op[:i], false)
+		s.hookFails = ""
+		delete(coresim.CallFail, tag)
 	default:
 		s.control(strings.TrimSuffix(op, "!"), strings.HasSuffix(op, "!"))
 	}
@@ -432,6 +471,17 @@ func main() {
 		calls = append(calls, callRole("b-"+ev, "before_"+ev), callRole("a-"+ev, "after_"+ev))
 	}
 	calls = append(calls, callRole("destroy-hook", "DESTROY"))
+	// critical calls at negative and positive weights of every moment of every transition (failed on demand)
+	seenTrig := map[string]bool{}
+	for _, ev := range []string{"CONFIGURE", "START_ACTIVITY", "STOP_ACTIVITY", "RESET"} {
+		for _, site := range hookSites {
+			tr := hookTrigger(ev, site)
+			if !seenTrig[tr] {
+				seenTrig[tr] = true
+				calls = append(calls, fmt.Sprintf("  - name: %q\n    call:\n      func: sim.Call(%q)\n      trigger: %s\n      timeout: 5s\n      critical: true\n", "k-"+tr, "k-"+tr, tr))
+			}
+		}
+	}
 	coresim.GlobalSetup(coresim.WorkflowSpec{Name: "c01", Hosts: []string{"hostA"}, Calls: calls,
 		Tasks: []coresim.TaskSpec{{Name: "t1", Class: "c01t1", Mode: "direct", Critical: true, Host: "hostA"}}})
 	scs := []*vrt.Scenario{{
